@@ -245,8 +245,14 @@ fn id(
     node: dom::XmlNode,
     _: &mut model::Context,
 ) -> error::Result<model::Value> {
-    if node.owner_document().map(|v| v.doc_type()).is_some() {
-        unimplemented!()
+    // without attribute declarations of type ID no element has a unique ID
+    if node
+        .owner_document()
+        .and_then(|v| v.doc_type())
+        .is_some()
+        || matches!(node, dom::XmlNode::Document(ref v) if v.doc_type().is_some())
+    {
+        Err(error::Error::NotSupported("id()".to_string()))
     } else {
         Ok(model::Value::Node(vec![]))
     }
